@@ -369,6 +369,13 @@ func (f *Stub) newLink(ctx context.Context) *link {
 	if addr == "" {
 		addr = "peer-0"
 	}
+	// a deadline of the opening call reaches the server through grpc-timeout: the server-side
+	// stream context ends at the same (virtual) instant
+	if dl, ok := ctx.Deadline(); ok {
+		var dcancel context.CancelFunc
+		sctx, dcancel = context.WithDeadline(sctx, dl)
+		_ = dcancel // released when l.scancel / the deadline fires; the bubble ends with the scenario
+	}
 	sctx = peer.NewContext(sctx, &peer.Peer{Addr: simAddr(addr)})
 	sctx = context.WithValue(sctx, interceptorKey{}, "icpt-"+addr)
 	l.sctx, l.scancel = context.WithCancel(sctx)
